@@ -23,6 +23,8 @@ def run(chk):
         'and rank comparison (use analysis), so folding it on every suit-membership pattern x rank order of 4 cards decides it '
         'for all tricks. Constructor: dummy = declarer.partner, opening leader = declarer\'s left, passed-out refused. '
         'has_done <=> 13 tricks completed.')
+    from .playfold import fourth_card_rule
+    fourth_card_rule(chk, 'C04.R6')
     seat_tables(chk, 'C04.R1', f)
     w_pc, q_pc = loc(repo, BASE, 'play_card', 'C04.R1')
     paths = P.summ.paths(BASE, 'play_card')
